@@ -54,6 +54,7 @@ def obligation_ok(root):
 def programs(size, level, **kw):
     """All programs with exactly `size` call nodes (ordered forests)."""
     wf = kw.pop('wfirst_variants', True)
+    ob = obligation_ok if kw.pop('oblig', True) else (lambda root: True)
     if size == 1:
         for a in nodes(idx=1, **kw):
             yield {'level': level, 'root': [a]}
@@ -63,10 +64,10 @@ def programs(size, level, **kw):
         for a in A:
             for b in B:
                 root = [a, b]
-                if obligation_ok(root):
+                if ob(root):
                     yield {'level': level, 'root': [_clone(a), _clone(b)]}
                 root = [_clone(a, ch=[b])]
-                if obligation_ok(root):
+                if ob(root):
                     yield {'level': level, 'root': root}
                     if wf and a['k'] == 'bf' and a['mode'] in ('ok', 'ra', 'nj'):
                         yield {'level': level, 'root': [_clone(a, ch=[b], wfirst=True)]}
@@ -79,7 +80,7 @@ def programs(size, level, **kw):
                 for c in C:
                     for root in ([a, b, c], [_clone(a, ch=[b]), c], [a, _clone(b, ch=[c])],
                                  [_clone(a, ch=[b, c])], [_clone(a, ch=[_clone(b, ch=[c])])]):
-                        if obligation_ok(root):
+                        if ob(root):
                             yield {'level': level, 'root': [_clone(x) for x in root]}
     else:
         raise ValueError(size)
